@@ -262,8 +262,10 @@ class Broker:
 POLICIES = ["all", "acked", "qos1plus", "nothing"]
 
 
-def gen_config(rng, adversarial=False):
+def gen_config(rng, adversarial=False, profile="default"):
     v = rng.choice([5, 5, 311])
+    if profile == "backlog":
+        v = 5 if rng.chance(0.8) else 311
     cfg = {"v": v, "policy": rng.choice(POLICIES), "drain": rng.choice(["none", "none", "one"]),
            "pingto": rng.choice([0, 1, 500, 1000, 10000, 30000]), "resolver": rng.choice(["none", "null", "manual", "lru"]),
            "rmax": rng.choice([0, 1, 2, 5])}
@@ -292,18 +294,25 @@ def gen_config(rng, adversarial=False):
         co.append("w.topic=" + hexs(b"will/t") + f" w.qos={rng.choice([0, 1, 2])} w.payload=" + hexs(b"bye"))
     if rng.chance(0.2):
         co.append("up=" + hexs(b"k") + ":" + hexs(b"v"))
+    if profile == "backlog":
+        # many unacknowledged operations across resumed sessions: retain everything, rejoin sessions
+        cfg["policy"] = rng.choice(["all", "all", "acked"])
+        cfg.pop("retries", None)
+        co = [x for x in co if not x.startswith("rejoin=") and not x.startswith("mps=")]
+        co.append(f"rejoin={rng.choice(['post', 'always'])}")
     head = " ".join(f"{k}={val}" for k, val in cfg.items())
     return cfg, f"eng.new {head} | " + " ".join(co), ka
 
 
 class Walk:
-    def __init__(self, rng, harness, adversarial=False, strict_driver=False, length=80, snap_after_svc=False):
+    def __init__(self, rng, harness, adversarial=False, strict_driver=False, length=80, snap_after_svc=False, profile="default"):
         self.rng = rng
         self.h = harness
         self.adv = adversarial
         self.strict = strict_driver
         self.length = length
         self.snap_after_svc = snap_after_svc
+        self.profile = profile
         self.script = []        # concrete request lines
         self.out = []           # implementation responses
         self.notes = []         # per line: annotation dict for monitors
@@ -313,7 +322,7 @@ class Walk:
         self.buf_len = 0        # bytes handed out by service and not yet write-completed
         self.cap = 4096
         self.nuser = 0
-        self.cfg, self.new_line, self.ka = gen_config(rng, adversarial)
+        self.cfg, self.new_line, self.ka = gen_config(rng, adversarial, profile)
         _ckv = parse_kv("c " + self.new_line.split(" | ", 1)[1])[1]
         self.client_tam = int(kv_get(_ckv, "tam", "0"))
         self.connect_kv = _ckv
@@ -429,7 +438,7 @@ class Walk:
         r = self.rng
         b = self.broker
         rc = 0 if r.chance(0.9) else r.choice([135, 136])
-        sp = 1 if (b.session and rc == 0 and r.chance(0.7)) else 0
+        sp = 1 if (b.session and rc == 0 and r.chance(0.95 if self.profile == "backlog" else 0.7)) else 0
         if getattr(b, "clean_start", False):
             sp = 0          # a conformant server discards the session on Clean Start
         if self.adv and r.chance(0.05):
@@ -437,8 +446,8 @@ class Walk:
             self.tainted = True
         caps = {}
         if self.v5:
-            if r.chance(0.4):
-                caps["rm"] = r.choice([1, 2, 3, 10])
+            if r.chance(0.4) or self.profile == "backlog":
+                caps["rm"] = r.choice([1, 2, 3, 10]) if self.profile != "backlog" else r.choice([1, 1, 2, 3, 5])
             if r.chance(0.2):
                 caps["mq"] = r.choice([0, 1])
             if r.chance(0.2):
@@ -624,7 +633,9 @@ class Walk:
                     else:
                         self.hostile()
                 elif b.connack_sent:
-                    if not self.deliver_response():
+                    if self.profile == "backlog" and r.chance(0.75):
+                        self.service()          # a slow server: acknowledgements pile up
+                    elif not self.deliver_response():
                         if r.chance(0.4):
                             self.server_publish()
                         else:
